@@ -67,8 +67,10 @@ def param_sets(sig, ctx):
             yield {k: f'v_{k}' for k in sub}
 
 
-def method_cfg(sig, ctx, positional, view, deco=False, via_registry=False):
+def method_cfg(sig, ctx, positional, view, deco=False, via_registry=False, static=False):
     m = D.M('f', sig, D.ECHO)
+    if static:
+        m['static'] = True                # the view member is a @staticmethod
     if via_registry:
         m['via_registry'] = True          # registered on its own registry, then merged into the dispatcher (methods are copied)
     if deco:
@@ -96,7 +98,8 @@ def generate(tier, rng):
                     for deco in (False, True):
                         if deco and n >= 2 and rng.random() > (0.5 if thorough else 0.2):
                             continue
-                        cfg = D.cfg(methods=[method_cfg(sig, ctx, positional, view, deco, via_registry=(not view and rng.random() < 0.35))])
+                        cfg = D.cfg(methods=[method_cfg(sig, ctx, positional, view, deco, via_registry=(not view and rng.random() < 0.35),
+                                                        static=(view and not deco and rng.random() < 0.3))])
                         plist = list(param_sets(sig, ctx))
                         if n >= 3 and not thorough:
                             plist = rng.sample(plist, min(len(plist), 12))
